@@ -10,6 +10,7 @@ import NngModel.Spec.Pair
 import NngModel.Proofs.PairHop
 import NngModel.Proofs.PairStep
 import NngModel.Proofs.PairFresh
+import NngModel.Proofs.PairJudgeMain
 namespace Nng.C08
 open Nng Nng.Proto Nng.Pair0
 
@@ -326,11 +327,55 @@ example :
     let s := (run Nng.Pair0.variant {} sample0).1
     s.wrReady = false ∧ s.wmqCap ≤ s.wmq.length ∧ s.waq.length = 1 ∧ s.writable = false ∧ s.closed = false := by decide
 
-/-- not proved: every trace of the model is accepted by the C08 judge (Spec/Pair.lean).  The judge
-    is run on the implementation's and (through the correspondence) the model's traces instead. -/
+/-! ### JUDGE: the model's traces satisfy the executable trace predicate of Spec/Pair.lean -/
+
+/-- the unconditional statement: every trace of the models is accepted by the C08 judges.  It is
+    FALSE (`judge_needs_hypotheses`): the judge identifies messages by their bytes and treats
+    `abort aio 0` / `abort aio NNG_EPROTO` as a successful / refused operation. -/
 def judge_accepts_model_statement : Prop :=
   ∀ evs : List Ev,
     Nng.PairSpec.pair1Judge (evs.zip (run Nng.Pair1.variant {} evs).2) = none ∧
     Nng.PairSpec.pair0Judge (evs.zip (run Nng.Pair0.variant {} evs).2) = none
+
+/-- `nng_aio_abort(aio, 0)` on a parked receive completes it "successfully" without a message -/
+theorem judge_needs_hypotheses : ¬ judge_accepts_model_statement := by
+  intro h
+  have := (h [.openSock "pair0" false, .recv none 0 .inf, .abort 0 0]).2
+  revert this
+  decide
+
+/-- JUDGE: for every event sequence with pairwise distinct send bodies, pairwise distinct arriving
+    byte strings and no `abort aio 0` / `abort aio NNG_EPROTO`, the trace of the PAIRv1 model and the
+    trace of the PAIRv0 model are accepted by the trace predicates `pair1Judge` / `pair0Judge` — the
+    predicates that judge the implementation's traces on every run.  Proved by a simulation
+    (Proofs/PairJudge*.lean): a relation between model state and judge state preserved by every event. -/
+theorem judge_accepts_model (evs : List Ev) (hb : DistinctBodies evs) (ha : DistinctArrivals evs)
+    (hn : NoBadAbort evs) :
+    Nng.PairSpec.pair1Judge (evs.zip (run Nng.Pair1.variant {} evs).2) = none ∧
+    Nng.PairSpec.pair0Judge (evs.zip (run Nng.Pair0.variant {} evs).2) = none := by
+  have e1 : Nng.PairSpec.init1 = J0 Nng.Pair1.variant true := by
+    simp [Nng.PairSpec.init1, J0, proto_ids.2]
+  have e0 : Nng.PairSpec.init0 = J0 Nng.Pair0.variant false := by
+    simp [Nng.PairSpec.init0, J0, proto_ids.1]
+  constructor
+  · unfold Nng.PairSpec.pair1Judge; rw [e1]; exact pair_judge_ok vj_pair1 evs hb ha hn
+  · unfold Nng.PairSpec.pair0Judge; rw [e0]; exact pair_judge_ok vj_pair0 evs hb ha hn
+
+/-- the hypotheses hold for the PAIRv1 history above (two sends, three arrivals) -/
+example : DistinctBodies sample1 ∧ DistinctArrivals sample1 ∧ NoBadAbort sample1 := by
+  refine ⟨?_, ?_, ?_⟩
+  · unfold DistinctBodies; decide
+  · unfold DistinctArrivals; decide
+  · unfold NoBadAbort; decide
+
+/-- ... so its trace is accepted; and the judge is not trivially `none`: the same history with the
+    second peer's refusal removed from the outputs is rejected -/
+example : Nng.PairSpec.pair1Judge (sample1.zip (run Nng.Pair1.variant {} sample1).2) = none :=
+  (judge_accepts_model sample1 (by unfold DistinctBodies; decide) (by unfold DistinctArrivals; decide)
+    (by unfold NoBadAbort; decide)).1
+
+example : Nng.PairSpec.pair1Judge
+    [(.openSock "pair1" false, [.rv 0]), (.pipeAdd 0x11, [.pipe 0, .parm 0]), (.pipeAdd 0x11, [.pipe 1, .parm 1])] ≠ none := by
+  decide
 
 end Nng.C08
